@@ -81,7 +81,32 @@ _CMP = {
     ast.NotIn: lambda a, b: a not in b,
 }
 
+def _obj_setattr(o, k, v):
+    if not isinstance(o, Obj) or not isinstance(k, str):
+        raise TypeError("setattr outside the domain objects")
+    o.__dict__[k] = v
+
+
+def _obj_getattr(o, k, *d):
+    if isinstance(o, Obj) and isinstance(k, str):
+        if k in o.__dict__:
+            return o.__dict__[k]
+        if d:
+            return d[0]
+        raise AttributeError(k)
+    raise TypeError("getattr outside the domain objects")
+
+
+def _obj_hasattr(o, k):
+    if isinstance(o, Obj) and isinstance(k, str):
+        return k in o.__dict__
+    raise TypeError("hasattr outside the domain objects")
+
+
 _BUILTINS: Dict[str, Callable] = {
+    "setattr": _obj_setattr,
+    "getattr": _obj_getattr,
+    "hasattr": _obj_hasattr,
     "len": len,
     "min": min,
     "max": max,
@@ -418,9 +443,15 @@ class Evaluator:
                 args.extend(self.ev(a.value))
             else:
                 args.append(self.ev(a))
-        kwargs = {k.arg: self.ev(k.value) for k in n.keywords if k.arg}
-        if any(k.arg is None for k in n.keywords):
-            raise Unfoldable("**kwargs call")
+        kwargs = {}
+        for k in n.keywords:
+            if k.arg:
+                kwargs[k.arg] = self.ev(k.value)
+            else:
+                more = self.ev(k.value)
+                if not isinstance(more, dict):
+                    raise Raised("TypeError")
+                kwargs.update(more)
         if key in self.funcs:
             try:
                 return self.funcs[key](*args, **kwargs)
@@ -714,3 +745,66 @@ def single_defs(func) -> Dict[str, ast.AST]:
         elif isinstance(n, ast.NamedExpr):
             bump(n.target)
     return {k: v for k, v in defs.items() if count.get(k) == 1 and k not in params}
+
+
+class Lifted:
+    """A function of /repo lifted into the folding language with Python's calling convention: defaults are evaluated
+    once (at lift time, so a mutable default is shared between calls exactly as in Python), positional, keyword, *args
+    and **kwargs are bound per call, the body runs in a fresh Evaluator. Calling it returns the function's value;
+    an exception of the fragment propagates as Raised."""
+
+    def __init__(self, fn, funcs=None, consts=None, env=None, hook=None):
+        self.fn, self.funcs, self.consts, self.env, self.hook = fn, dict(funcs or {}), dict(consts or {}), dict(env or {}), hook
+        a = fn.args
+        ev = Evaluator(self.env, self.funcs, self.consts)
+        pos = a.posonlyargs + a.args
+        self.pos = [x.arg for x in pos]
+        self.defaults = {}
+        for x, d in zip(pos[len(pos) - len(a.defaults):], a.defaults):
+            self.defaults[x.arg] = ev.ev(d)
+        self.kwonly = [x.arg for x in a.kwonlyargs]
+        for x, d in zip(a.kwonlyargs, a.kw_defaults):
+            if d is not None:
+                self.defaults[x.arg] = ev.ev(d)
+        self.vararg = a.vararg.arg if a.vararg else None
+        self.kwarg = a.kwarg.arg if a.kwarg else None
+        self.body = [s for s in fn.body if not (isinstance(s, ast.Expr) and isinstance(s.value, ast.Constant))]
+
+    def bind(self, args, kw):
+        loc = {}
+        args = list(args)
+        for i, nme in enumerate(self.pos):
+            if i < len(args):
+                loc[nme] = args[i]
+        extra = args[len(self.pos):]
+        if extra and not self.vararg:
+            raise Raised("TypeError")
+        if self.vararg:
+            loc[self.vararg] = tuple(extra)
+        rest = {}
+        for k, v in kw.items():
+            if k in self.pos or k in self.kwonly:
+                if k in loc:
+                    raise Raised("TypeError")
+                loc[k] = v
+            elif self.kwarg:
+                rest[k] = v
+            else:
+                raise Raised("TypeError")
+        if self.kwarg:
+            loc[self.kwarg] = rest
+        for nme in self.pos + self.kwonly:
+            if nme not in loc:
+                if nme in self.defaults:
+                    loc[nme] = self.defaults[nme]
+                else:
+                    raise Raised("TypeError")
+        return loc
+
+    def __call__(self, *args, **kw):
+        ev = Evaluator(dict(self.env), self.funcs, self.consts, hook=self.hook)
+        ev.locals.update(self.bind(args, kw))
+        kind, val = ev.run(self.body)
+        if kind == "raise":
+            raise Raised(val)
+        return val if kind == "return" else None
